@@ -162,6 +162,31 @@ def make_shape(s):
     return ShapeGroup([make_shape(m) for m in s["m"]])
 
 
+def make_shape_moved(s, mv):
+    """the shape of spec s as the result of Shape.translate_rotate: an object built at the pose from which the motion
+    mv = [tx, ty, angle] leads to s answers a query (so that whatever it remembers is filled), then it is moved"""
+    import math
+    tx, ty, a = mv
+    co, si = math.cos(-a), math.sin(-a)
+
+    def back(p):                         # translate_rotate maps p to R(a)(p + t)
+        return [co * p[0] - si * p[1] - tx, si * p[0] + co * p[1] - ty]
+
+    def pre(m):
+        if m["k"] == "rect":
+            return dict(m, c=back(m["c"]), o=m["o"] - a)
+        if m["k"] == "circ":
+            return dict(m, c=back(m["c"]))
+        if m["k"] == "poly":
+            return dict(m, v=[back(v) for v in m["v"]])
+        return dict(m, m=[pre(x) for x in m["m"]])
+    sh0 = make_shape(pre(s))
+    for m, msh in zip(prims(pre(s)), sh0.shapes if s["k"] == "group" else [sh0]):
+        msh.contains_point(np.array(m["c"] if "c" in m else m["v"][0], dtype=float))
+        _ = msh.shapely_object
+    return sh0.translate_rotate(np.array([tx, ty], dtype=float), a)
+
+
 def make_shape_via(s, seed, trace=None, defer=False):
     """the shape of spec s reached through its public setters: an object built with other values answers queries
     (vertices, point containment, exported geometry), then length / width / center / orientation (radius / center;
